@@ -376,9 +376,12 @@ impl<'source> Iterator for Lexer<'source> {
                     self.comment_depth += 1;
                     continue;
                 }
-                | Some((Ok(Tok::CommentClose), _)) => {
+                | Some((Ok(Tok::CommentClose), range)) => {
                     if self.comment_depth == 0 {
-                        break None;
+                        // A terminator without an opener closes nothing. Ending the stream
+                        // here would silently drop the rest of the file, so hand the token
+                        // to the parser, which rejects it as a syntax error.
+                        break Some((range.start, Tok::CommentClose, range.end));
                     }
                     self.comment_depth -= 1;
                 }
